@@ -121,6 +121,7 @@ func runFuzz(prop, target string, d time.Duration, work string) (string, int64, 
 		}
 	}
 	note := fmt.Sprintf("%s: %v, %d execs", target, d, execs)
+	note += corpusStats(target)
 	if err == nil {
 		return note + ", no crasher", execs, nil
 	}
@@ -144,4 +145,27 @@ func runFuzz(prop, target string, d time.Duration, work string) (string, int64, 
 	f := failure{Property: prop, Kind: "fuzz", Case: c, Signature: "fuzz:" + target,
 		Message: "native fuzz target " + target + " found a crasher:\n" + tail(string(out), 30)}
 	return note + ", CRASHER", execs, []failure{f}
+}
+
+var corpusLineRe = regexp.MustCompile(`CORPUS target=\S+ (entries=\d+ in_domain=\d+ kinds=.*)`)
+
+// corpusStats asks the harness how many entries of the corpus the fuzzer kept
+// (the go build cache's fuzz directory, cumulative over campaigns) lie in the
+// domain of the target's oracle.
+func corpusStats(target string) string {
+	gc := exec.Command("go", "env", "GOCACHE")
+	gc.Env = env()
+	out, err := gc.Output()
+	if err != nil {
+		return ""
+	}
+	dir := filepath.Join(strings.TrimSpace(string(out)), "fuzz", "verif", "harness", "props", target)
+	cmd := exec.Command("go", "test", "-tags", "verif", "-count=1", "-v", "-run", "^TestCorpusStats$", "./props")
+	cmd.Dir = filepath.Join(root, "harness")
+	cmd.Env = append(env(), "VERIF_CORPUS="+dir, "VERIF_CORPUS_TARGET="+target)
+	o, _ := cmd.CombinedOutput()
+	if m := corpusLineRe.FindStringSubmatch(string(o)); m != nil {
+		return ", kept corpus (cumulative): " + m[1] + " (in_domain = entries inside the domain of the target's oracle)"
+	}
+	return ""
 }
